@@ -61,21 +61,22 @@ def smf(tracks, division=96, fmt=1):
 
 
 def song1():
-    """format 1, 3 tracks (conductor + 2), titles, 3 markers incl. loopStart/loopEnd, channels 1-3 only, about 0.9 s."""
+    """format 1, 3 tracks (conductor + 2), titles, 3 markers incl. loopStart/loopEnd, MIDI channels 5-7 only (the real-time
+    calls of the alphabet address channels 0, 1, 9, 15), about 0.9 s."""
     t0 = [(0, _meta(0x03, b"C03 song one")), (0, _meta(0x02, b"(c) verif")), (0, _meta(0x51, bytes([0x07, 0xA1, 0x20]))),
           (0, _meta(0x06, b"intro")), (48, _meta(0x06, b"loopStart")), (96, _meta(0x06, b"loopEnd")), (24, _meta(0x01, b"text"))]
-    t1 = [(0, _meta(0x03, b"lead")), (0, bytes([0xC1, 5])), (0, bytes([0xB1, 7, 100])), (0, bytes([0x91, 60, 100])), (24, bytes([0x91, 64, 90])),
-          (24, bytes([0x81, 60, 0])), (0, bytes([0xE1, 0, 80])), (24, bytes([0x81, 64, 0])), (0, bytes([0x91, 67, 110])), (48, bytes([0x81, 67, 0])),
-          (0, bytes([0xB1, 64, 127])), (0, bytes([0x91, 72, 100])), (24, bytes([0x81, 72, 0])), (12, bytes([0xB1, 64, 0]))]
-    t2 = [(0, _meta(0x03, b"bass")), (0, bytes([0xC2, 33])), (0, bytes([0x92, 36, 100])), (0, bytes([0x93, 48, 100])), (48, bytes([0x82, 36, 0])),
-          (0, bytes([0xF0]) + _vlq(5) + bytes([0x7E, 0x7F, 0x09, 0x01, 0xF7])), (24, bytes([0x92, 38, 100])), (24, bytes([0x83, 48, 0])),
-          (48, bytes([0x82, 38, 0])), (0, bytes([0xD2, 40])), (0, bytes([0xA2, 38, 10]))]
+    t1 = [(0, _meta(0x03, b"lead")), (0, bytes([0xC5, 5])), (0, bytes([0xB5, 7, 100])), (0, bytes([0x95, 60, 100])), (24, bytes([0x95, 64, 90])),
+          (24, bytes([0x85, 60, 0])), (0, bytes([0xE5, 0, 80])), (24, bytes([0x85, 64, 0])), (0, bytes([0x95, 67, 110])), (48, bytes([0x85, 67, 0])),
+          (0, bytes([0xB5, 64, 127])), (0, bytes([0x95, 72, 100])), (24, bytes([0x85, 72, 0])), (12, bytes([0xB5, 64, 0]))]
+    t2 = [(0, _meta(0x03, b"bass")), (0, bytes([0xC6, 33])), (0, bytes([0x96, 36, 100])), (0, bytes([0x97, 48, 100])), (48, bytes([0x86, 36, 0])),
+          (0, bytes([0xF0]) + _vlq(4) + bytes([0x7D, 0x01, 0x02, 0xF7])), (24, bytes([0x96, 38, 100])), (24, bytes([0x87, 48, 0])),
+          (48, bytes([0x86, 38, 0])), (0, bytes([0xD6, 40])), (0, bytes([0xA6, 38, 10]))]
     return smf([t0, t1, t2])
 
 
 def song2():
     """format 0, one track, no loop points, no titles, about 0.15 s."""
-    t = [(0, bytes([0xC1, 0])), (0, bytes([0x91, 60, 100])), (12, bytes([0x91, 62, 100])), (12, bytes([0x81, 60, 0])), (6, bytes([0x81, 62, 0]))]
+    t = [(0, bytes([0xC5, 0])), (0, bytes([0x95, 60, 100])), (12, bytes([0x95, 62, 100])), (12, bytes([0x85, 60, 0])), (6, bytes([0x85, 62, 0]))]
     return smf([t], fmt=0)
 
 
